@@ -298,7 +298,7 @@ func Decode(pfxData []byte, password string) (privateKey interface{}, certificat
 		switch {
 		case bag.Id.Equal(oidCertBag):
 			if certificate != nil {
-				err = errors.New("go-pkcs12: expected exactly one certificate bag")
+				return nil, nil, errors.New("go-pkcs12: expected exactly one certificate bag")
 			}
 
 			certsData, err := decodeCertBag(bag.Value.Bytes)
@@ -317,7 +317,7 @@ func Decode(pfxData []byte, password string) (privateKey interface{}, certificat
 
 		case bag.Id.Equal(oidPKCS8ShroundedKeyBag):
 			if privateKey != nil {
-				err = errors.New("go-pkcs12: expected exactly one key bag")
+				return nil, nil, errors.New("go-pkcs12: expected exactly one key bag")
 			}
 
 			if privateKey, err = decodePkcs8ShroudedKeyBag(bag.Value.Bytes, encodedPassword); err != nil {
